@@ -221,7 +221,7 @@ def check_noconf(rec, inp):
 LENS_NAMES = ["a_ani", "beta_inf", "gamma_in", "log_m2l", "gamma_pl"]
 
 
-def build_lens(inp, with_grid=True, data=None):
+def build_lens(inp, with_grid=True, data=None, likelihood_type="IFUKinCov"):
     from hierarc.Likelihood.hierarchy_likelihood import LensLikelihood
     names = inp["names"]
     g = np.random.default_rng([int(inp["grid_seed"]), 5])
@@ -233,7 +233,7 @@ def build_lens(inp, with_grid=True, data=None):
         kw.update(kin_scaling_param_list=list(names), j_kin_scaling_param_axes=axes_arg(inp),
                   j_kin_scaling_grid_list=[gr / 500. for gr in make_grids(inp)])
     model = "GOM" if "beta_inf" in names else inp.get("model", "OM")
-    return LensLikelihood(z_lens=0.4, z_source=1.3, likelihood_type="IFUKinCov", anisotropy_model=model,
+    return LensLikelihood(z_lens=0.4, z_source=1.3, likelihood_type=likelihood_type, anisotropy_model=model,
                           anisotropy_sampling=inp.get("ani_sampling", True), anisotropy_distribution="NONE",
                           gamma_in_sampling=("gamma_in" in names) and not inp.get("drop_gamma_in_sampling", False),
                           gamma_in_distribution="NONE", log_m2l_sampling="log_m2l" in names,
@@ -318,6 +318,20 @@ def check_lens(rec, inp):
             b = fscalar(L2.lens_log_likelihood(c, kwargs_lens=kl, kwargs_kin=kk))
             rec.check(rec.close(a, b, rtol=1e-9, atol=1e-9), "C10:lens:likelihood:" + tag,
                       "likelihood at the point != likelihood of the same lens with J scaled by the grid factor", ip, a, b)
+            # the distance likelihoods that take the scaling of the FIRST bin: Ds/Dds is divided by it, Dd is multiplied by it - equivalently
+            # an un-scaled lens with mean*s, sigma*s (resp. mean/s, sigma/s)
+            s0 = float(exp[0])
+            for t, kw_t, kw_ref in (
+                    ("DsDdsGaussian", dict(ds_dds_mean=1.4, ds_dds_sigma=0.11), dict(ds_dds_mean=1.4 * s0, ds_dds_sigma=0.11 * s0)),
+                    ("DdtDdGaussian", dict(ddt_mean=3100., ddt_sigma=240., dd_mean=1150., dd_sigma=95.),
+                     dict(ddt_mean=3100., ddt_sigma=240., dd_mean=1150. / s0, dd_sigma=95. / s0))):
+                Lt, _ = build_lens(inp, True, kw_t, likelihood_type=t)
+                Lr, _ = build_lens(inp, False, kw_ref, likelihood_type=t)
+                a = fscalar(Lt.lens_log_likelihood(c, kwargs_lens=kl, kwargs_kin=kk))
+                b = fscalar(Lr.lens_log_likelihood(c, kwargs_lens=kl, kwargs_kin=kk))
+                rec.check(rec.close(a, b, rtol=1e-9, atol=1e-9), "C10:lens:likelihood:%s:%s" % (t, tag),
+                          "%s lens with a scaling grid: likelihood != that of the same lens with the data rescaled by the grid factor of the first bin" % t,
+                          dict(ip, likelihood_type=t), a, b)
         except Exception as e:
             rec.check(False, "C10:lens:raised:%s" % type(e).__name__, "LensLikelihood path raised inside the grid", ip,
                       str(e)[:100], exp)
